@@ -79,6 +79,26 @@ fn c01_oracle(m: &MLib, big: bool, via_file: bool, ctx: &mut Ctx) -> Result<(), 
         };
         let _ = std::fs::remove_file(&path);
         out
+    } else if hash_of(m) % 8 == 3 {
+        // a destination that takes only a few bytes per call, as pipes, sockets and line-buffered
+        // writers legally do: every byte must still arrive
+        ctx.label("through a writer that accepts a few bytes per call");
+        struct Trickle(Vec<u8>, usize);
+        impl std::io::Write for Trickle {
+            fn write(&mut self, b: &[u8]) -> std::io::Result<usize> {
+                let n = b.len().min(self.1);
+                self.0.extend_from_slice(&b[..n]);
+                Ok(n)
+            }
+            fn flush(&mut self) -> std::io::Result<()> {
+                Ok(())
+            }
+        }
+        let mut dest = Trickle(Vec::new(), 1 + (hash_of(m) % 7) as usize);
+        match lib.write(&mut dest) {
+            Err(e) => Err(e),
+            Ok(()) => Ok(gds21::GdsLibrary::from_bytes(&dest.0)),
+        }
     } else {
         let mut bytes = Vec::new();
         match lib.write(&mut bytes) {
